@@ -547,7 +547,7 @@ const P10: &str = ".orig x3000\nfirst add r1,r1,#1\nadd r1,r1,#1\nadd r1,r1,#1\n
 fn ref_flag(v: u16) -> RunFlag { if v == 0 { RunFlag::Z } else if v & 0x8000 != 0 { RunFlag::N } else { RunFlag::P } }
 
 /// C15 against a semantics written here from the ISA: 5 PC situations (origin; after two steps; x30F0, beyond the labels; x2FFE and
-/// x2F10, strayed BELOW the origin through `eval jmp`) x 27 well-formed instructions (operate forms at the immediate
+/// x2F10, strayed BELOW the origin through `eval jmp`) x 28 well-formed instructions (operate forms at the immediate
 /// limits, LD/LDI/LEA/ST/STI on labels before and after the PC, LDR/STR with offsets, JMP, RET) x 18 refused texts (BR*, RTI, HALT,
 /// unknown / halting trap vectors, missing / surplus / wrong-kind operands, directives): the WHOLE machine after
 /// `eval T; move spare x0BAD; exit` is the expected one — a label is its address at every PC, the PC moves only for jumps, a
@@ -589,6 +589,8 @@ fn verif_native_eval_reference() {
         ("jmp r6", Box::new(|s: &mut RunState| { s.pc = s.reg[6]; })),
         ("JMP R3", Box::new(|s: &mut RunState| { s.pc = s.reg[3]; })),
         ("ret", Box::new(|s: &mut RunState| { s.pc = s.reg[7]; })),
+        // a jump whose target happens to be the address right after the PC is still a jump (r5 is set to PC+1 per situation)
+        ("jmp r5", Box::new(|s: &mut RunState| { s.pc = s.reg[5]; })),
         // refused: no effect
         ("br data", nothing()), ("brnzp first", nothing()), ("brz #1", nothing()), ("rti", nothing()), ("halt", nothing()), ("trap x25", nothing()),
         ("trap x30", nothing()), ("trap x00", nothing()), ("add r0, r0", nothing()), ("add r0, r0, #1 r2", nothing()), ("add r0, r0, #16", nothing()),
@@ -600,6 +602,7 @@ fn verif_native_eval_reference() {
         for idx in 0..count {
             evaluated += 1;
             let text = mk()[idx].0;
+            let setup = format!("{}move r5 x{:04X}; ", setup, pc.wrapping_add(1));
             let script_a = format!("{}{}exit", setup, prefix);
             let script_b = format!("{}{}eval {}; move spare x0BAD; exit", setup, prefix, text);
             let sb = script_b.clone();
